@@ -253,6 +253,13 @@ class Flow:
                     inner.append(o.func.value)
             elif isinstance(o, ast.Dict):
                 inner += [v for k, v in zip(o.keys, o.values) if k is None]
+            elif isinstance(o, ast.DictComp) and len(o.generators) == 1:
+                # {k: f(v) for k, v in m.items()}: the same keys, the entries (possibly copied) of m
+                it = o.generators[0].iter
+                while isinstance(it, ast.Call) and isinstance(it.func, ast.Name) and it.func.id in ("list", "tuple") and len(it.args) == 1:
+                    it = it.args[0]
+                if isinstance(it, ast.Call) and isinstance(it.func, ast.Attribute) and it.func.attr == "items" and not it.args:
+                    inner.append(it.func.value)
             if any(self.holds_entries_of(i, node, _depth + 1) for i in inner):
                 return True
         return False
@@ -393,4 +400,132 @@ def certain_strings(expr, p, module, cls=None, flow: Flow | None = None, _seen=N
             m = owner.lookup(expr.attr)
             if m and m[1] == "assign" and m[2] is not None:
                 return certain_strings(m[2], p, m[0].module, m[0], None, seen)
+    return set()
+
+
+# ------------------------------------------------------------------------------------------------ isinstance facts
+def type_names(t) -> set:
+    """names in the class argument of isinstance / in an annotation (last attribute of dotted names, names inside strings)"""
+    out = set()
+    for n in ast.walk(t):
+        if isinstance(n, ast.Name):
+            out.add(n.id)
+        elif isinstance(n, ast.Attribute):
+            out.add(n.attr)
+        elif isinstance(n, ast.Constant) and isinstance(n.value, str):
+            out |= {x for x in n.value.replace("|", " ").replace("[", " ").replace("]", " ").replace(",", " ").replace(".", " ").split()}
+        elif isinstance(n, ast.Constant) and n.value is None:
+            out.add("None")
+    return out
+
+
+def isinstance_of(test, is_subject):
+    """(type names, positive?) when the test is `isinstance(<subject>, T)` / `not isinstance(<subject>, T)`, else None"""
+    positive = True
+    while isinstance(test, ast.UnaryOp) and isinstance(test.op, ast.Not):
+        test, positive = test.operand, not positive
+    if isinstance(test, ast.Call) and isinstance(test.func, ast.Name) and test.func.id == "isinstance" and len(test.args) == 2 and is_subject(test.args[0]):
+        return type_names(test.args[1]), positive
+    return None
+
+
+JUMPS = (ast.Continue, ast.Break, ast.Return, ast.Raise)
+
+
+def test_facts(test, want, is_subject, is_key=None, strict=True):
+    """Facts that hold when `test` evaluates to `want`: a list of ("type", names) — isinstance(subject, names) — and
+    ("key", constants) — the key variable equals one of the constants.  Conjunctions (and the De Morgan dual) are split.
+    None when (strict) some part of the condition is of another kind, so that nothing can be said about which entries pass."""
+    while isinstance(test, ast.UnaryOp) and isinstance(test.op, ast.Not):
+        test, want = test.operand, not want
+    if isinstance(test, ast.BoolOp) and isinstance(test.op, ast.And if want else ast.Or):
+        out = []
+        for part in test.values:
+            sub = test_facts(part, want, is_subject, is_key, strict)
+            if sub is None:
+                return None
+            out += sub
+        return out
+    t = isinstance_of(test, is_subject)
+    if t is not None:
+        if t[1] == want:
+            return [("type", frozenset(t[0]))]
+        return None if strict else []
+    if is_key is not None and isinstance(test, ast.Compare) and len(test.ops) == 1 and is_key(test.left):
+        op, rhs = test.ops[0], test.comparators[0]
+        consts = None
+        if isinstance(op, (ast.Eq, ast.NotEq)) and isinstance(rhs, ast.Constant):
+            consts, positive = {rhs.value}, isinstance(op, ast.Eq)
+        elif isinstance(op, (ast.In, ast.NotIn)) and isinstance(rhs, (ast.Tuple, ast.List, ast.Set)) and all(isinstance(e, ast.Constant) for e in rhs.elts):
+            consts, positive = {e.value for e in rhs.elts}, isinstance(op, ast.In)
+        if consts is not None and positive == want:
+            return [("key", frozenset(consts))]
+    return None if strict else []
+
+
+def instance_facts(par, st, top, is_subject, strict=True, is_key=None, rebinds=None):
+    """What the tests on the way tell about <subject> whenever statement `st` runs inside `top` (a loop or the function): a list
+    of facts (see test_facts) — from enclosing ifs (body or else branch) and from earlier guard clauses: `if <test>: continue /
+    return / raise`, or `if <test>: <subject re-bound>` (rebinds(stmt) says so: past it the ORIGINAL value only flows on when the
+    test was false).  None when (strict) the statement is reached under any other kind of condition; [] when unconditionally.
+    strict=False: other conditions are ignored (they can only narrow further) and just the usable facts are collected."""
+    facts = []
+    cur, child = par.get(st), st
+    while cur is not None:
+        blk = next((b for b in (getattr(cur, "body", None), getattr(cur, "orelse", None), getattr(cur, "finalbody", None))
+                    if isinstance(b, list) and child in b), None)
+        if blk is None:
+            if strict:
+                return None
+            blk = [child]
+        for prev in blk[: blk.index(child)]:
+            leaves = isinstance(prev, ast.If) and not prev.orelse and (
+                all(isinstance(x, JUMPS) for x in prev.body) or (rebinds is not None and all(rebinds(x) for x in prev.body)))
+            if leaves:
+                sub = test_facts(prev.test, False, is_subject, is_key, strict)
+                if sub is None:
+                    return None
+                facts += sub
+            elif strict and any(isinstance(x, JUMPS) for x in ast.walk(prev)):
+                return None
+        if cur is top:
+            return facts
+        if isinstance(cur, ast.If):
+            sub = test_facts(cur.test, child in cur.body, is_subject, is_key, strict)
+            if sub is None:
+                return None
+            facts += sub
+        elif not isinstance(cur, (ast.With, ast.AsyncWith)) and strict:
+            return None
+        cur, child = par.get(cur), cur
+    return None
+
+
+def top_types(ann) -> set:
+    """Names of the types an annotation admits at the TOP level: `dict | None`, Optional[dict], Union[dict, str], dict[str, Any]
+    give dict (, None, str); `list[dict]` gives list only — what the value IS, not what it contains."""
+    if ann is None:
+        return set()
+    if isinstance(ann, ast.Constant) and isinstance(ann.value, str):
+        try:
+            return top_types(ast.parse(ann.value, mode="eval").body)
+        except SyntaxError:
+            return set()
+    if isinstance(ann, ast.Constant) and ann.value is None:
+        return {"None"}
+    if isinstance(ann, ast.BinOp) and isinstance(ann.op, ast.BitOr):
+        return top_types(ann.left) | top_types(ann.right)
+    if isinstance(ann, ast.Subscript):
+        base = ann.value.attr if isinstance(ann.value, ast.Attribute) else getattr(ann.value, "id", None)
+        if base in ("Optional", "Union", "Annotated", "Final", "ClassVar"):
+            inner = ann.slice.elts if isinstance(ann.slice, ast.Tuple) else [ann.slice]
+            if base == "Annotated":
+                inner = inner[:1]
+            out = set().union(*[top_types(x) for x in inner]) if inner else set()
+            return out | ({"None"} if base == "Optional" else set())
+        return {base} if base else set()
+    if isinstance(ann, ast.Name):
+        return {ann.id}
+    if isinstance(ann, ast.Attribute):
+        return {ann.attr}
     return set()
